@@ -704,3 +704,60 @@ func appendAliasAudit(c *Ctx, rule string, rels []string, why string) int {
 	}
 	return n
 }
+
+// onlyFrom: every value that can flow into v (through phis, local variables, conversions and string slicing) satisfies
+// leaf - in particular no constant alternative exists. Used for keys that must be the client's identity on every path.
+func onlyFrom(v ssa.Value, leaf func(ssa.Value) bool) bool {
+	seen := map[ssa.Value]bool{}
+	var walk func(x ssa.Value, d int) bool
+	walk = func(x ssa.Value, d int) bool {
+		if x == nil || d > 12 {
+			return false
+		}
+		if seen[x] {
+			return true
+		}
+		seen[x] = true
+		if leaf(x) {
+			return true
+		}
+		switch y := x.(type) {
+		case *ssa.Phi:
+			for _, e := range y.Edges {
+				if !walk(e, d+1) {
+					return false
+				}
+			}
+			return len(y.Edges) > 0
+		case *ssa.Convert:
+			return walk(y.X, d+1)
+		case *ssa.ChangeType:
+			return walk(y.X, d+1)
+		case *ssa.Slice:
+			return walk(y.X, d+1)
+		case *ssa.Extract:
+			return walk(y.Tuple, d+1)
+		case *ssa.UnOp:
+			if y.Op == token.MUL {
+				switch a := y.X.(type) {
+				case *ssa.Alloc:
+					n := 0
+					for _, r := range refs(a) {
+						if st, ok := r.(*ssa.Store); ok && st.Addr == ssa.Value(a) {
+							n++
+							if !walk(st.Val, d+1) {
+								return false
+							}
+						}
+					}
+					return n > 0
+				case *ssa.FreeVar:
+					// a captured variable: every store to it in the enclosing functions
+					return false
+				}
+			}
+		}
+		return false
+	}
+	return walk(v, 0)
+}
